@@ -128,8 +128,12 @@ xi_open	(SF_PRIVATE *psf)
 */
 
 static int
-xi_close	(SF_PRIVATE * UNUSED (psf))
+xi_close	(SF_PRIVATE *psf)
 {
+	/* The sample length in the header is only known now. */
+	if (psf->file.mode == SFM_WRITE || psf->file.mode == SFM_RDWR)
+		xi_write_header (psf, SF_TRUE) ;
+
 	return 0 ;
 } /* xi_close */
 
